@@ -59,6 +59,7 @@ pub struct ObjectReceiver {
     a_large: u64,
     a_small: u64,
     nb_a_large: u64,
+    nb_blocks: u64,
     object_writer_builder: Rc<dyn ObjectWriterBuilder>,
     object_writer: Option<ObjectWriterSession>,
     block_writer: Option<BlockWriter>,
@@ -104,6 +105,7 @@ impl ObjectReceiver {
             a_large: 0,
             a_small: 0,
             nb_a_large: 0,
+            nb_blocks: 0,
             object_writer_builder,
             object_writer: None,
             block_writer: None,
@@ -185,6 +187,15 @@ impl ObjectReceiver {
         if self.transfer_length.unwrap() == 0 {
             debug_assert!(self.block_writer.is_none());
             self.complete(now);
+            return Ok(());
+        }
+
+        if payload_id.sbn as u64 >= self.nb_blocks {
+            log::warn!(
+                "SBN {} is out of range, object is partitioned into {} blocks",
+                payload_id.sbn,
+                self.nb_blocks
+            );
             return Ok(());
         }
 
@@ -719,6 +730,7 @@ impl ObjectReceiver {
         self.a_large = a_large;
         self.a_small = a_small;
         self.nb_a_large = nb_a_large;
+        self.nb_blocks = nb_blocks;
 
         self.blocks_variable_size =
             oti.fec_encoding_id == oti::FECEncodingID::ReedSolomonGF28UnderSpecified;
